@@ -327,7 +327,7 @@ fn main() {
     for i in 0..njen {
         let idx = 3000 + i;
         let mut rng = run.rng(idx, 3);
-        run.case(idx, &format!("jenkins|batch%10={}", i % 10), json!({"what": "100 names x bits {8,16,32,40,48,56,64}: het_hash vs lookup3 of the folded name; fold direction must be one and the same for all names"}), |c| {
+        run.case(idx, &format!("jenkins|batch%10={}", i % 10), json!({"what": "100 names x hash widths (quick: 19 widths from 8 to 64 incl. non-multiples of 8; thorough: every width 8..=64): het_hash vs lookup3 of the folded name; fold direction must be one and the same for all names"}), |c| {
             for j in 0..100 {
                 // lengths 0..40 systematically (all lookup3 tail cases 0..12 several times), then random
                 let s = if j <= 40 { let mut t = rand_name(&mut rng); while t.len() > j as usize { t.pop(); } while t.len() < j as usize { t.push('q'); } t } else { rand_name(&mut rng) };
@@ -335,7 +335,8 @@ fn main() {
                 let lo: Vec<u8> = s.bytes().map(ref_fold_lower).collect();
                 let want_up = ref_jenkins64(&up);
                 let want_lo = ref_jenkins64(&lo);
-                for bits in [8u32, 16, 32, 40, 48, 56, 64] {
+                let widths: Vec<u32> = if thorough { (8..=64).collect() } else { vec![8, 9, 12, 15, 16, 17, 23, 24, 31, 32, 33, 40, 47, 48, 55, 56, 57, 63, 64] };
+                for bits in widths {
                     let (fh, nh1) = het_hash(&s, bits);
                     c.count("jenkins_pairs", 1);
                     let (and_mask, or_mask) = if bits < 64 { ((1u64 << bits) - 1, 1u64 << (bits - 1)) } else { (u64::MAX, 0) };
@@ -453,6 +454,53 @@ fn main() {
                 c.violate("bet-stored-hash-ne-lookup3", format!("the BET table of a built {ver:?} archive does not carry the lookup3 hashlittle2 hash (bet_hash_size {bits}) of {ne}/{} added names, first {:?}", names.len(), first), json!({"first": first, "mismatches": ne, "bits": bits}));
             }
             let _ = std::fs::remove_file(&path);
+        });
+    }
+    // ---- 4100..: the table-body cipher pair (writer: ArchiveBuilder::encrypt_data, reader: tables/common.rs) ------------
+    // An HET table image is assembled here (12-byte extended header + 32-byte header + hash bytes + packed indices), its body
+    // encrypted with the function the builder uses, and read back through HetTable::read: the hash and index arrays must
+    // come back byte for byte for every body length (all four residues mod 4) and key.
+    for k in 0..(if thorough { 40u64 } else { 4 }) {
+        let idx = 4100 + k;
+        let mut rng = run.rng(idx, 5);
+        run.case(idx, &format!("table-body-cipher|het|batch{}", k % 4), json!({"what": "HET images with 1..16 hash entries x index widths 1..8 bits, random and zero keys"}), |c| {
+            for h in 1..=16usize {
+                for isz in 1..=8usize {
+                    let key = if (h + isz) % 9 == 0 { 0 } else { rng.next_u32() | 1 };
+                    let ibytes = (h * isz).div_ceil(8);
+                    let mut body: Vec<u8> = Vec::new();
+                    for v in [(32 + h + ibytes) as u32, h as u32, h as u32, 8, (h * isz) as u32, 0, isz as u32, ibytes as u32] {
+                        body.extend_from_slice(&v.to_le_bytes());
+                    }
+                    let hashes = rng.bytes(h);
+                    let indices = rng.bytes(ibytes);
+                    body.extend_from_slice(&hashes);
+                    body.extend_from_slice(&indices);
+                    let blen = body.len();
+                    let mut image: Vec<u8> = Vec::new();
+                    image.extend_from_slice(&0x1A54_4548u32.to_le_bytes());
+                    image.extend_from_slice(&1u32.to_le_bytes());
+                    image.extend_from_slice(&(blen as u32).to_le_bytes());
+                    if key != 0 {
+                        builder.encrypt_data(&mut body, key);
+                    }
+                    image.extend_from_slice(&body);
+                    c.count("table_bodies", 1);
+                    c.count(&format!("table_bodies|lenmod4={}", blen % 4), 1);
+                    let n = image.len() as u64;
+                    match vh_common::trap(|| wow_mpq::HetTable::read(&mut std::io::Cursor::new(&image), 0, n, key)) {
+                        Ok(Ok(t)) => {
+                            if t.hash_table != hashes || t.file_indices != indices {
+                                let part = if t.hash_table != hashes { "hash-array" } else { "index-array" };
+                                c.violate(format!("table-body-decrypt-not-inverse|het|{part}|lenmod4={}|key{}", blen % 4, if key == 0 { "=0" } else { "!=0" }),
+                                    format!("HetTable::read of a {blen}-byte body encrypted with ArchiveBuilder::encrypt_data(key {key:#x}) returns a different {part}"), json!({"entries": h, "index_bits": isz, "key": key, "body_len": blen}));
+                            }
+                        }
+                        Ok(Err(e)) => c.violate(format!("table-body-rejected|het|lenmod4={}", blen % 4), format!("HetTable::read rejects a well-formed {blen}-byte table body (key {key:#x}): {e}"), json!({"entries": h, "index_bits": isz})),
+                        Err(p) => c.violate(format!("table-body-panic|het|{}", p.sig()), format!("HetTable::read panicked: {}", p.msg), json!({"entries": h, "index_bits": isz})),
+                    }
+                }
+            }
         });
     }
     run.done();
